@@ -1,5 +1,7 @@
-/- Line-protocol driver for M1 Units:  `conv <hyd> <param> <unit> <mass> <order> <dw> <p/q>`  ->  `<toSI> <fromSI>` as exact p/q -/
+/- Line-protocol driver for M1 Units:  `conv <hyd> <param> <unit> <mass> <order> <dw> <p/q>`  ->  `<toSI> <fromSI>` as exact p/q;
+   `xconv …` the same through the container value model (`XVal.scale`): the value may also be nan / inf / -inf -/
 import WntrModel.Model.Units
+import WntrModel.Model.UnitsNames
 import WntrModel.Gen.Units
 open Wntr.Units
 
@@ -14,8 +16,25 @@ def parseRat (s : String) : Option Rat :=
 
 def showRat (r : Rat) : String := s!"{r.num}/{r.den}"
 
+def showX : XVal → String
+  | .fin q => showRat q
+  | .nan => "nan"
+  | .pinf => "inf"
+  | .ninf => "-inf"
+
+def parseX (s : String) : Option XVal :=
+  if s == "nan" then some .nan else if s == "inf" then some .pinf else if s == "-inf" then some .ninf
+  else (parseRat s).map .fin
+
 def handle (line : String) : String :=
   match line.trimAscii.toString.splitOn " " with
+  | ["xconv", h, p, u, m, o, d, x] =>
+    match p.toNat?, u.toNat?, m.toNat?, o.toNat?, parseX x with
+    | some p, some u, some m, some o, some x =>
+      match lookup Gen.table (h == "1") p u m o (d == "1") with
+      | some e => s!"{showX (XVal.scale (factor e.toSteps) x)} {showX (XVal.scale (factor e.fromSteps) x)}"
+      | none => "missing"
+    | _, _, _, _, _ => "bad-op"
   | ["conv", h, p, u, m, o, d, x] =>
     match p.toNat?, u.toNat?, m.toNat?, o.toNat?, parseRat x with
     | some p, some u, some m, some o, some x =>
